@@ -395,6 +395,28 @@ def materialise(ent):
 SORTS = ("fcfs", "lcfs", "edf", "llf", "lrpt")
 
 
+def _loose_estimator_class():
+    from acnportal.algorithms.upper_bound_estimator import UpperBoundEstimatorBase
+
+    class LooseEstimator(UpperBoundEstimatorBase):
+        """a user-written estimator (the documented extension point): it knows the on-board charger limit of every
+        second vehicle only (40 A, above any EVSE's maximum) and says nothing about the others"""
+
+        def __init__(self):
+            super().__init__()
+            self.upper_bounds = {}
+
+        def get_maximum_rates(self, sessions):
+            self.upper_bounds = {s.session_id: 40.0 for k, s in enumerate(sorted(sessions, key=lambda x: x.session_id)) if k % 2 == 0}
+            return dict(self.upper_bounds)
+
+    return LooseEstimator
+
+
+def LooseEstimator():
+    return _loose_estimator_class()()
+
+
 def make_algorithm(spec):
     from acnportal.algorithms import (
         SortedSchedulingAlgo,
@@ -422,6 +444,8 @@ def make_algorithm(spec):
     }[spec.get("sort", "fcfs")]
     # est: True -> the default rampdown estimator; "ramp0" -> one that never probes upwards (its bound can be exactly 0)
     est = (SimpleRampdown(up_increment=0) if spec.get("est") == "ramp0" else SimpleRampdown()) if spec.get("est") else None
+    if spec.get("est") == "loose":
+        est = LooseEstimator()
     if kind == "greedy":
         return SortedSchedulingAlgo(sort, estimate_max_rate=bool(est), max_rate_estimator=est, uninterrupted_charging=bool(spec.get("unint")))
     if kind == "rr":
@@ -476,10 +500,11 @@ def horizon_of(scn):
     return (max(ts) if ts else 0)
 
 
-def build_sim(scn, algo=None, on_call=None, on_return=None, net_cls=MonNet, monitor=True, store_history=False, peek=False, reuse=None):
+def build_sim(scn, algo=None, on_call=None, on_return=None, net_cls=MonNet, monitor=True, store_history=False, peek=False, reuse=None, net=None):
     """scenario descriptor -> (sim, recorder, evs, periods-log); `reuse` maps session ids to EV objects of an
     earlier run, which are reset() and used again instead of fresh ones"""
-    net = build_network(scn["net"], scn.get("order"), scn.get("corder"), cls=net_cls, limits=scn.get("limits"), unnamed=bool(scn.get("unnamed")), hist=scn.get("hist"))
+    if net is None:  # (`net`: a network OBJECT that already served an earlier simulation and is used again)
+        net = build_network(scn["net"], scn.get("order"), scn.get("corder"), cls=net_cls, limits=scn.get("limits"), unnamed=bool(scn.get("unnamed")), hist=scn.get("hist"))
     evs = {}
     batteries = {}
     events = []
